@@ -635,6 +635,11 @@ Linear_Expression_Impl<Row>
       typename Row2::const_iterator j_last = y.row.lower_bound(end);
 
       while (i != i_end && i.index() < end && j != j_last) {
+        if (*j == 0) {
+          // A dense `y' also iterates on its zeroes: they must not be stored.
+          ++j;
+          continue;
+        }
         if (i.index() < j.index()) {
           i = row.reset(i);
           continue;
@@ -656,6 +661,10 @@ Linear_Expression_Impl<Row>
         i = row.reset(i);
       }
       while (j != j_last) {
+        if (*j == 0) {
+          ++j;
+          continue;
+        }
         i = row.insert(i, j.index(), *j);
         (*i) *= c2;
         // No need to increment i here.
